@@ -86,6 +86,7 @@ type FuncContract struct {
 	Props      []string
 	NoFrame    bool
 	DynTypes   []dynDef
+	Aliases    []dynDef // Param and Type hold the two names
 	Delegates  *SpecExpr
 	DelegProps []string
 }
@@ -400,6 +401,14 @@ func (e *Engine) parseContractLines(p *packages.Package, file string, lines []st
 			}
 			cur.Delegates = e
 			cur.DelegProps = parseTagsOf(rest)
+		case "alias":
+			// alias SCENARIO A B: in that scenario run the captured variable (or parameter) B is the same object as A
+			fs := strings.Fields(rest)
+			if len(fs) != 3 {
+				fail("alias needs scenario and two names", t)
+				continue
+			}
+			cur.Aliases = append(cur.Aliases, dynDef{Case: fs[0], Param: fs[1], Type: fs[2]})
 		case "dyn":
 			// dyn SCENARIO PARAM TYPE: in that scenario run the interface parameter holds a value of this dynamic type
 			fs := strings.Fields(rest)
